@@ -282,8 +282,8 @@ def fault_cases(draw):
 
 
 def subs(tier):
-    return [Sub("precedence", prec_cases(), run_prec, quick=3000, thorough=120000),
-            Sub("alias", alias_cases(), run_alias, quick=800, thorough=30000),
-            Sub("ignored", ignored_cases(), run_ignored, quick=600, thorough=20000),
+    return [Sub("precedence", prec_cases(), run_prec, quick=6000, thorough=120000),
+            Sub("alias", alias_cases(), run_alias, quick=1600, thorough=30000),
+            Sub("ignored", ignored_cases(), run_ignored, quick=1200, thorough=20000),
             Sub("helpdefaults", st.just({}), run_help, quick=1, thorough=1, needs=("shim", "rel"), enum=help_enum),
-            Sub("faults", fault_cases(), run_fault, quick=120, thorough=1500, needs=("shim", "rel"))]
+            Sub("faults", fault_cases(), run_fault, quick=240, thorough=1500, needs=("shim", "rel"))]
